@@ -9,7 +9,7 @@ from harness.main import Engine
 from harness.props import c16
 
 PID = 'C14'
-LEVEL = 'translation_validation'
+LEVEL = 'proof'
 RULE = ('include: 1-4 search locations x 1-3 readers (the default open() over a per-case temp dir + in-memory readers), '
         'files present in random subsets of (location x reader), include trees of depth <= 4 with conflicting bindings '
         'before and after each include, missing files at any position, absolute names, the three entry points called '
